@@ -30,12 +30,18 @@ def run(ctx):
     items, _ = pages.pages_from_tlc("MC_PageItem", "MC_PageItem.cfg", ctx, "MC_PageItem: RoundTrip on all single-item shapes")
     items = [p for p in items if p["body"]]
     chosen = items if not ctx.quick else pc.stratified_items(items, rng, 400)
+    if ctx.quick and len(chosen) > 1500:
+        chosen = rng.sample(chosen, 1500)
+    del items
+    ctx.stage("tlc MC_PageItem")
     cases = [(f"item{i}", p, pages.TODAY) for i, p in enumerate(chosen)]
     cases += pc.random_cases(ctx.seed + 12, 150 if ctx.quick else 3000, lines=(6, 40), meta_p=0.35, tag="rt")
     cases += pc.random_cases(ctx.seed + 112, 60 if ctx.quick else 1500, lines=(3, 30), meta_p=0.35, tag="ix", want_zid=True)
     recs = pages.compile_cases(cases, roundtrip=True)
     recs_ok = [r for r in recs if r.get("mode") == "roundtrip"]
+    ctx.stage("compile + roundtrip")
     verdicts = pages.tlc_verdicts(recs, ctx, "c12")
+    ctx.stage("tlc Trace_Page")
     seen = set()
     for r in recs:
         ctx.add("evaluations")
@@ -82,6 +88,7 @@ def run(ctx):
             ctx.violation(f"C12: {kind}: {what}", {"source": o["id"], "page_text": bp.render_page(r["page"]), "emitted": text,
                                                    "page": r["page"], "today": r["today"]},
                           key="zoq-page-no-final-newline" if kind == "zoq-newline" else None)
+    ctx.stage("through the index")
     # the file surgery of the refresh itself: FileOps!ZoqRefresh on every page shape of MC_Zoq
     import json
     from .. import tlc
@@ -104,6 +111,11 @@ def run(ctx):
             ctx.violation(f"C12: saved-query page after {'one refresh' if which == 'once' else 'two refreshes' if which == 'twice' else 'refresh'}"
                           f" is not header + separator + stats line + blank + current results: {got[:200]!r}",
                           {"page_before": x["text"], "observed": got, "expected": want})
+    ctx.stage("zoq refresh cases")
+    # saved-query pages inside the edit loop (refreshed before every editor session, harness/bus.py)
+    from . import indexcommon as ic
+    ic.edit_loop(ctx, "C12", {"zoq"}, n_quick=16, n_thorough=240)
+    ctx.stage("edit loop")
     if not ctx.coverage.get("through_index_pages"):
         ctx.machinery("no page went through the index (query results / saved-query pages were not exercised)")
     ctx.add("traces_validated_against_impl", len(recs_ok))
